@@ -543,7 +543,7 @@ def _log_history(case, fmt, sepfile, stale, hist, d, sink):
             f.write('Iteration\told\n0\t1.0\n1\t2.0\n2\t3.0\n3\t4.0\n4\t5.0\n')
     sigs = [pym.Signal(LOG_KINDS[nm], log_value(nm, 0, seed)) for nm in names]
     size1 = any(isinstance(sg.state, np.ndarray) and sg.state.ndim > 0 and sg.state.size == 1 for sg in sigs)
-    has2d = any(isinstance(sg.state, np.ndarray) and sg.state.ndim >= 2 and sg.state.size > 1 for sg in sigs)
+    has2d = any(isinstance(sg.state, np.ndarray) and sg.state.ndim >= 2 for sg in sigs)
     sigin = {'input': 'size1_array' if size1 else 'array' if any(isinstance(sg.state, np.ndarray) and sg.state.ndim > 0
                                                                for sg in sigs) else 'scalar'}
     try:
